@@ -377,6 +377,9 @@ func runC05(t *sim.Tape, opt sim.RunOpt) *sim.Outcome {
 // ---- C07: agreement with independent encoders on valid data ----
 
 func runC07(t *sim.Tape, opt sim.RunOpt) *sim.Outcome {
+	if opt.Mode == "hashers" {
+		return runC07Hashers(t, opt)
+	}
 	o := &sim.Outcome{}
 	st, err := drawStream(t, opt.Extra["repo"], 60000, false)
 	if err != nil {
